@@ -491,9 +491,6 @@ func checkCase(c *Case) error {
 		p := c.prep(a.pw)
 		isUser, isOwner := p.same(user), p.same(owner)
 		r, err := open(data, a.pw)
-		if r != nil && err != nil {
-			return fmt.Errorf("password %s %+q: NewReader returned a reader and the error %v", a.kind, a.pw, err)
-		}
 
 		var allowed []int // acceptable permission values if the file opens
 		mustOpen := false
